@@ -81,9 +81,9 @@ def enumerate_ops(m, mi):
         except Exception:
             continue
         if k == 'required_node_property':
-            ops += [(mi, n, 'set-copy', 0), (mi, n, 'set-donor', 1), (mi, n, 'set-donor', 2), (mi, n, 'set-attached', 0)]
+            ops += [(mi, n, 'set-copy', 0), (mi, n, 'set-donor', 1), (mi, n, 'set-donor', 2), (mi, n, 'set-attached', 0), (mi, n, 'set-root', 0)]
         elif k == 'optional_node_property':
-            ops += [(mi, n, 'set-none', 0), (mi, n, 'set-copy', 0), (mi, n, 'set-donor', 1), (mi, n, 'set-donor', 3), (mi, n, 'set-attached', 0)]
+            ops += [(mi, n, 'set-none', 0), (mi, n, 'set-copy', 0), (mi, n, 'set-donor', 1), (mi, n, 'set-donor', 3), (mi, n, 'set-attached', 0), (mi, n, 'set-root', 0)]
         elif k in ('required_value_property',):
             ops += [(mi, n, 'val-donor', 1), (mi, n, 'val-donor', 2), (mi, n, 'val-same', 0)]
         elif k.startswith('optional_') and k.endswith('_property'):
@@ -103,6 +103,7 @@ def enumerate_ops(m, mi):
                     ops += [(mi, n, 'pop', i), (mi, n, 'setitem', i)]
             ops += [(mi, n, 'append', 0), (mi, n, 'extend2', 0), (mi, n, 'clear', 0), (mi, n, 'del-slice', (0, 2)), (mi, n, 'ins2-front', 0),
                     (mi, n, 'slice-set', (0, 1)), (mi, n, 'slice-set', (1, 1)), (mi, n, 'pop', ln), (mi, n, 'setitem', ln), (mi, n, 'ins-attached', 0)]
+            if n.startswith('raw_'): ops += [(mi, n, 'root-ins', 0), (mi, n, 'root-append', 0), (mi, n, 'root-setitem', 0), (mi, n, 'root-slice', 0), (mi, n, 'root-extend', 0)]
     return ops
 
 
@@ -150,6 +151,11 @@ def apply_op(f, op):
         if tree.store_text(dm.token_store) != before and d is not getattr(m, n):
             raise AssertionError('donor document changed although node was not moved')
         raise AssertionError(f'C19: node attached elsewhere was accepted (donor text before {before!r}, after {tree.store_text(dm.token_store)!r})') if tree.store_text(dm.token_store) == before and len(before) > len(tree.model_text(d)) else Refused('whole-document donor')
+    if action == 'set-root':
+        # the root of this very document (a node that contains the target): must be refused without touching the document (C19)
+        if m is f: raise Refused('root property')
+        setattr(m, n, f)
+        raise AssertionError('C19: the root of the same document was accepted as a child')
     if action == 'val-same':
         setattr(m, n, cur); return m, ('val', n, cur)
     if action == 'val-donor':
@@ -183,6 +189,16 @@ def apply_op(f, op):
     if action == 'del-slice': del view[arg[0]:arg[1]]; return m, ('list', n)
     if action == 'ins2-front': view[0:0] = [item(1), item(2)]; return m, ('list', n)
     if action == 'slice-set': view[arg[0]:arg[0] + arg[1]] = [item(1), item(2)]; return m, ('list', n)
+    if action.startswith('root-'):
+        if m is f and False: raise Refused('')
+        if action == 'root-ins': view.insert(0, f)
+        elif action == 'root-append': view.append(f)
+        elif action == 'root-extend': view.extend([f])
+        elif action == 'root-setitem':
+            if len(view) == 0: raise Refused('empty')
+            view[0] = f
+        elif action == 'root-slice': view[0:1] = [f]
+        raise AssertionError('C19: the root of the same document was accepted as an item')
     if action == 'ins-attached':
         dm = donor_model(cls.__name__, 1)
         dview = getattr(dm, n, None) if dm is not None else None
